@@ -13,12 +13,15 @@ BuiltinNames == { Id0(x) : x \in DOMAIN Functions } \cup { Id(<<"geo">>, x) : x 
 NearMiss == { Id0("Length"), Id0("CONCAT"), Id0("matchespattern"), Id0("MatchesPattern"), Id0("len"), Id0("lengths"),
               Id0("distance"), Id0("intersects"), Id0("foo"), Id0("not"), Id0("isof"), Id0("cast"),
               Id(<<"geo">>, "contains"), Id(<<"geo">>, "Length"), Id(<<"geo">>, "area"), Id(<<"Geo">>, "length"),
-              Id(<<"geo", "x">>, "length"), Id(<<"x", "geo">>, "length") }
+              Id(<<"geo", "x">>, "length"), Id(<<"x", "geo">>, "length"),
+              \* names with non-ASCII word characters (the lexer's \w and its case folding are Unicode-aware)
+              Id0("ſubstring"), Id0("straße"), Id0("tolower²"), Id(<<"geo">>, "diſtance") }
 Custom == { Id(<<"f">>, "length"), Id(<<"my">>, "func"), Id(<<"x", "y">>, "now"), Id(<<"odata">>, "concat"),
             \* namespaces that are fragments or extensions of "geo": still custom namespaces
-            Id(<<"g">>, "distance"), Id(<<"ge">>, "length"), Id(<<"eo">>, "intersects"), Id(<<"o">>, "trim"), Id(<<"geog">>, "length") }
+            Id(<<"g">>, "distance"), Id(<<"ge">>, "length"), Id(<<"eo">>, "intersects"), Id(<<"o">>, "trim"), Id(<<"geog">>, "length"),
+            Id(<<"ns">>, "größe"), Id(<<"maß">>, "norm") }
 Names == BuiltinNames \cup NearMiss \cup Custom
-Styles == {"lit", "call", "list", "path", "mixed", "named"}
+Styles == {"lit", "call", "list", "path", "mixed", "named", "namedrev", "uniid"}
 
 ArgOf(s, i) == CASE s = "lit"  -> IntL(i)
                  [] s = "call" -> Call(Id0("tolower"), <<StrL(<<96 + i>>)>>)
@@ -27,6 +30,9 @@ ArgOf(s, i) == CASE s = "lit"  -> IntL(i)
                  [] s = "mixed" -> (CASE i % 4 = 1 -> a [] i % 4 = 2 -> Cmp("eq", a, one)
                                       [] i % 4 = 3 -> Lst(<<one, a>>) [] OTHER -> Un("neg", a))
                  [] s = "named" -> Named(Id0(CASE i = 1 -> "p" [] i = 2 -> "q" [] i = 3 -> "r" [] i = 4 -> "s" [] OTHER -> "t"), IntL(i))
+                 \* named parameters whose names are NOT in alphabetical order, and identifiers with non-ASCII letters
+                 [] s = "namedrev" -> Named(Id0(CASE i = 1 -> "t" [] i = 2 -> "beta" [] i = 3 -> "r" [] i = 4 -> "alpha" [] OTHER -> "a"), IntL(i))
+                 [] s = "uniid" -> Id0(IF i % 2 = 1 THEN "naïve" ELSE "café")
 TheCall == Call(f, [i \in 1..n |-> ArgOf(style, i)])
 InCtx(c) == CASE ctxt = "alone" -> c
               [] ctxt = "cmp"   -> Cmp("eq", c, one)
@@ -37,7 +43,7 @@ InCtx(c) == CASE ctxt = "alone" -> c
               [] ctxt = "inbuiltin" -> Cmp("eq", Call(Id0("concat"), <<Call(Id0("tolower"), <<c>>), StrL(<<120>>)>>), StrL(<<121>>))
 
 Init == /\ f \in Names /\ n \in 0..5 /\ style \in Styles /\ ctxt \in {"alone", "cmp", "arg", "list", "lam", "inbuiltin"}
-        /\ (style = "named" => n >= 1)
+        /\ (style \in {"named", "namedrev"} => n >= 1)
 Next == UNCHANGED <<f, n, style, ctxt>>
 
 Expected == ParseTokens(Pr(InCtx(TheCall), "min"))
